@@ -170,6 +170,10 @@ def check_case(case, rec):
             classes.add("stop_with_stream_saver")
         if case.get("endless"):
             classes.add("endless_source")
+        if case.get("logger"):
+            classes.add("stop_with_logger" + ("_zero_detections" if not exp else ""))
+            if case.get("src_kind", "harness") != "harness" and 0 < nblocks < total_blocks:
+                classes.add("stop_with_logger_lazy_file_source")
         # was an event open when the stop arrived?
         # labels only (the oracle is split() of the prefix): an endless source pads the last partial
         # window with silence, which may bring its energy near the threshold - no guard band here
@@ -199,6 +203,7 @@ def explicit_cases():
 def strategy(draw, maxwin):
     c = draw(c13.strategy(maxwin) if draw(st.booleans()) else c12.strategy(maxwin))
     c["endless"] = draw(st.booleans())
+    c.pop("overlap", None)  # (what an overlapping reader keeps buffered at the stop is not part of "the stream read")
     c["stop"] = draw(st.one_of(st.floats(0, 1.15, allow_nan=False), st.sampled_from([0.0, 0.02, 0.05, 0.95, 1.0, 1.1])))
     return c
 
